@@ -932,7 +932,17 @@ func parseSite(rest string) (*SiteAction, error) {
 			if err != nil {
 				return nil, err
 			}
-			sa.Acts = append(sa.Acts, SiteAct{Kind: "set", Var: strings.TrimSpace(a[:eq]), E: e, Src: strings.Join(strings.Fields(a), " ")})
+			lhs := strings.TrimSpace(a[:eq])
+			act := SiteAct{Kind: "set", Var: lhs, E: e, Src: strings.Join(strings.Fields(a), " ")}
+			if lb := strings.Index(lhs, "["); lb > 0 && strings.HasSuffix(lhs, "]") {
+				ie, err := parseSpecExpr(lhs[lb+1 : len(lhs)-1])
+				if err != nil {
+					return nil, err
+				}
+				act.Var = strings.TrimSpace(lhs[:lb])
+				act.Idx = ie
+			}
+			sa.Acts = append(sa.Acts, act)
 		}
 	}
 	return sa, nil
